@@ -126,7 +126,24 @@ package fastcgi
 //@ func writeHeader
 //@   requires w != nil && r != nil && 100 <= r.StatusCode && r.StatusCode <= 999
 
-//@ unit request_path_sweep props=C19,C13 files=fastcgi.go nilchecks=on nonnil_params=on exclude=`Handler\)\.buildEnv$|fastcgi\.writeHeader$` filter=`.`
+//@ unit path_split props=C13,C19 nilchecks=on filter=`fastcgi\.Rule\)\.(splitPos|canSplit)$`
+//@ // the split position is an index into the ORIGINAL path at which a whole split string fits (also with case-insensitive
+//@ // paths, where lower-casing changes byte offsets): what makes the two slice expressions of buildEnv safe and correct
+//@ extern strings.Index
+//@   pure
+//@   ensures result == -1 || (0 <= result && result <= len(s) - len(substr))
+//@ extern strings.EqualFold
+//@   pure
+//@ func (Rule).splitPos
+//@   pure reads G:github.com/tmpim/casket/caskethttp/httpserver.CaseSensitivePath
+//@   ensures [index_in_original] result == -1 || (0 <= result && result + len(r.SplitPath) <= len(path))
+//@   loop 1 invariant 0 <= i
+//@   loop 1 decreases len(path) - len(r.SplitPath) - i + 1
+//@ func (Rule).canSplit
+//@   pure reads G:github.com/tmpim/casket/caskethttp/httpserver.CaseSensitivePath
+//@   ensures [can_split_means_position] result == (r.splitPos(path) >= 0)
+
+//@ unit request_path_sweep props=C19,C13 files=fastcgi.go nilchecks=on nonnil_params=on exclude=`fastcgi\.writeHeader$|Rule\)\.(splitPos|canSplit)$` filter=`.`
 //@ // request-path handling in front of the FastCGI client: zero-annotation safety sweep (index, slice, nil, division) plus
 //@ // the documented panic condition of ResponseWriter.WriteHeader as an obligation at every call site
 //@ use @verif/specs/stdlib.spec:stdlib
@@ -140,8 +157,10 @@ package fastcgi
 //@ func (Handler).ServeHTTP
 //@   requires r != nil && r.URL != nil && r.Header != nil && w != nil
 //@   at call strings.HasSuffix#2 assert [extension_compared_in_any_letter_case] arg0 == strings.ToLower(fpath) && arg1 == strings.ToLower(rule.Ext)
-//@ // proved when buildEnv is verified (excluded for now: its map literal is too large for the current encoding)
+//@ use caskethttp/fastcgi/contracts_verif.go:path_split
 //@ func (Handler).buildEnv
+//@   requires r != nil && r.URL != nil && r.Header != nil
+//@   requires [path_can_be_split] rule.splitPos(fpath) >= 0
 //@   ensures result1 == nil ==> result0 != nil
 //@ // representation invariant of the balancer built by the setup: at least one address, counter starts at -1
 //@ func (*roundRobin).Address
